@@ -141,9 +141,13 @@ Lemma parse_misc_good s c : wf s -> Inv c -> good (post 0 s) (parse_misc text C 
 Proof. intros. apply parse_misc_loop_good; auto using fuel_enough. Qed.
 Hint Resolve parse_misc_good : good.
 
-Lemma parse_attribute_good s : wf s -> good (adv 0 s) (parse_attribute text s).
+Lemma parse_attribute_good s : wf s -> good (fun p => adv 0 s (snd p)) (parse_attribute text s).
 Proof. intros W. unfold parse_attribute. gauto. Qed.
 Hint Resolve parse_attribute_good : good.
+
+Lemma parse_pseudo_attribute_good name s : wf s -> good (adv 0 s) (parse_pseudo_attribute text name s).
+Proof. intros W. unfold parse_pseudo_attribute. gauto. Qed.
+Hint Resolve parse_pseudo_attribute_good : good.
 
 Lemma decl_consume_spaces_good s : wf s -> good (adv 0 s) (decl_consume_spaces text s).
 Proof. intros W. unfold decl_consume_spaces. gauto. Qed.
@@ -152,6 +156,14 @@ Hint Resolve decl_consume_spaces_good : good.
 Lemma parse_declaration_good s : wf s -> good (adv 0 s) (parse_declaration text s).
 Proof. intros W. unfold parse_declaration. gauto. Qed.
 Hint Resolve parse_declaration_good : good.
+
+Lemma parse_external_literal_good s : wf s -> good (adv 0 s) (parse_external_literal text s).
+Proof. intros W. unfold parse_external_literal. gauto. Qed.
+Hint Resolve parse_external_literal_good : good.
+
+Lemma parse_pubid_literal_good s : wf s -> good (adv 0 s) (parse_pubid_literal text s).
+Proof. intros W. unfold parse_pubid_literal. gauto. Qed.
+Hint Resolve parse_pubid_literal_good : good.
 
 Lemma parse_external_id_good s : wf s -> good (fun p => adv 0 s (snd p)) (parse_external_id text s).
 Proof. intros W. unfold parse_external_id. gauto. Qed.
